@@ -37,7 +37,7 @@ checks = [
      "The driver model carries attributes (token identity, value identity of earlier action results, nil, error attributes); TLC checks post-order/yield/arity and stop-at-failing-action for all small inputs and all failing-call choices; every action call of real runs (production, argument identities, call number, injected failure and the returned error) is validated by TLC against the model over the real and the canonical tables.",
      TRUST, "TLA+ spec (LRParse/MC_LRParse/LRTrace) + TLC model checking + trace validation of logged action calls", "5/C03"),
  chk("C04", "model_checking",
-     "The canonical LR(1) automaton of each grammar (conflicting states, accept conflicts) is computed by TLC from LR1.tla; the exit/announcement policy is the outcome table of the TLC-checked Pipeline.tla state machine; the real gocc, with and without -a, must announce exactly when and how many states conflict and exit as the policy says. Every disagreement is a concrete grammar + flag set replayed on the real binary.",
+     "The canonical LR(1) automaton of each grammar (conflicting states, accept conflicts) is computed by TLC from LR1.tla; the exit/announcement policy is the outcome table of the TLC-checked Pipeline.tla state machine; the real gocc, with and without -a, must announce exactly when and how many states conflict and exit as the policy says. Every disagreement is a concrete grammar + flag set replayed on the real binary. Grammars with error alternatives are included; a family with a known number of conflicting states (confirmed by TLC for its small members) is run at 255/256/257 conflicts. As coverage beyond the property (NOTE only, never a verdict) the -v listings first.txt and LR1_sets.txt are judged by LRVerbose.tla against CFG.tla/LR1.tla.",
      TRUST, "TLA+ spec (LR1/LRIdealEval/Pipeline) evaluated/model-checked by TLC, compared with real gocc runs", "5/C04"),
  chk("C05", "model_checking",
      "TLC shows the pairwise resolution rule is order independent and equals shift-else-earliest-production for every competing set and permutation; for grammars with conflicts generated with -a TLC explores the whole product of the real tables with the canonical automaton resolved by that rule; real runs are validated against the resolved canonical machine (verdict and reductions).",
@@ -49,7 +49,7 @@ checks = [
      "Recovery is modelled as explicit actions (Recover/Skip/Resume/GiveUp/Fail) written from the statement; TLC checks deadlock-freedom, termination, token order and inertness on error-free inputs over canonical tables for all small inputs; LRProduct requires the real recovery flags to mark exactly the states that can shift error; real runs (a panic is an event no action matches) are validated against the model over real and canonical tables.",
      TRUST + " Domain: alternatives that begin with error (F8 is a known finding elsewhere).", "TLA+ spec (LRParse recovery actions/MC_LRParse/LRProduct/LRTrace) + TLC model checking + trace validation", "5/C07"),
  chk("C10", "model_checking",
-     "The behaviour of the generated token.TokMap is observed by executing the compiled package; TLC checks numbering, mutual inverse and unknown-name rules (TokenMap.tla) on every observed map; LexProduct/LRProduct pair lexer accept numbers and parser columns with the specification by name through the real map over all reachable product states, for lexer-only, -no_lexer and combined grammars with hostile spellings.",
+     "The behaviour of the generated token.TokMap is observed by executing the compiled package; TLC checks numbering, mutual inverse and unknown-name rules (TokenMap.tla) on every observed map; LexProduct/LRProduct pair lexer accept numbers and parser columns with the specification by name through the real map over all reachable product states, for lexer-only, -no_lexer and combined grammars with hostile spellings (a pool that is walked through in every run, on the parser's and on the lexer's side), a share of them generated with -v.",
      TRUST, "TLA+ spec (TokenMap/LexProduct/LRProduct) checked by TLC on maps and tables read from the generated code", "5/C10"),
  chk("C16", "model_checking",
      "Histories of Parse calls on one parser object and Scan/Reset histories on one lexer object are recorded from the real code; the models start every Parse / every post-Reset scan from the fresh configuration, so TLC accepting the trace of the k-th call IS history independence; TLC also explores Reset at every call boundary of the Scan-loop model.",
@@ -64,24 +64,24 @@ checks = [
      "LitConv.tla states Go's rune-literal rule and transcribes RuneValue/escapeCharVal; TLC enumerates every valid ASCII-spelled literal over the boundary digit set and checks agreement; the enumerated literals are replayed on util.RuneValue (generated), util.LitToRune (generator, overlay) and through one-token grammars on the real gocc. The all-code-points sweep and IntValue/UintValue are a plain Go loop against strconv (pure-function territory, outside TLC, stated as such).",
      TRUST + " strconv.UnquoteChar as the definition of Go literal semantics for the sweep.", "TLA+ case analysis (LitConv.tla) evaluated by TLC as oracle and test generator + replay on the three real consumers; exhaustive Go sweep against strconv for the pure-function half", "5/C20"),
  chk("C14", "model_checking",
-     "Grammar files are produced from harness-rendered base grammars by seeded token-level and consistency mutations; GoccSyntax.tla judges each file: its token sequence is run through the canonical LR(1) machine of spec/gocc2.ebnf computed by LR1.tla (nothing of the shipped tables is used), and definitions/references are checked for undefined and duplicate names; for every file judged ill-formed the real gocc must exit non-zero. One-directional (ill => refused), as the property states.",
+     "Grammar files are produced from harness-rendered base grammars by seeded token-level and consistency mutations; GoccSyntax.tla judges each file: its token sequence is run through the canonical LR(1) machine of spec/gocc2.ebnf computed by LR1.tla (nothing of the shipped tables is used), and definitions/references are checked for undefined and duplicate names; for every file judged ill-formed the real gocc must exit non-zero. One-directional (ill => refused), as the property states. The operators include character sequences that form no token (stray punctuation, malformed and unterminated literals and comments); comments are sprinkled over a third of the files.",
      TRUST + " The harness tokenises only texts it rendered itself (classification by construction). Known finding F8 (error/empty are token identifiers to gocc) is excluded from the mutation operators and replayed as KNOWN-FINDING.",
      "TLA+ oracle (GoccSyntax.tla over LR1.tla, evaluated by TLC) on seeded mutants + real gocc runs", "5/C14"),
  chk("C15", "model_checking",
      "spec/gocc2.ebnf is read independently; the shipped front-end tables are dumped in-package; TLC explores the whole reachable product of the shipped tables with the canonical LR(1) automaton of the documented grammar (every token sequence; productions matched by head and body); the shipped parser is driven through its exported Parse with logging reduce functions and every trace is validated against the driver model over the canonical tables of the documented grammar.",
      TRUST, "TLA+ spec (LR1/LRProduct/LRParse/LRTrace) + TLC product reachability against the shipped tables + trace validation of the shipped parser", "5/C15"),
  chk("C09", "model_checking",
-     "main() is an explicit TLA+ state machine (Pipeline.tla: stages, exit paths, packages written); TLC checks termination and status-zero-means-complete for all 64 flag sets x all input feature vectors and emits the outcome table; every row is instantiated with a concrete grammar on the real gocc (zero/non-zero status, packages written, go build of what was written). Hostile spellings must compile whenever gocc exits 0; seeded byte mutations, bracket towers and every nullable repetition shape up to depth 3 must terminate (a time-out is confirmed with a five-fold limit before it is reported).",
+     "main() is an explicit TLA+ state machine (Pipeline.tla: stages, exit paths, packages written); TLC checks termination and status-zero-means-complete for all 64 flag sets x all input feature vectors and emits the outcome table; every row is instantiated with a concrete grammar on the real gocc (zero/non-zero status, packages written, go build of what was written). Hostile spellings must compile whenever gocc exits 0; seeded byte mutations, bracket towers and every nullable repetition shape up to depth 3 must terminate (a time-out is confirmed with a five-fold limit before it is reported). Hostile spellings include raw invalid UTF-8, NUL and BOM in literals, attributes between quote rune literals and actions that begin like keywords, and token/production names that are Go keywords or identifiers of the generated packages.",
      TRUST + " Termination on arbitrary bytes is sampled (fault-injection style), not proved.",
      "TLA+ spec (Pipeline.tla) model-checked by TLC, its outcome table replayed on the real binary; seeded mutation sweep for termination/compilability", "5/C09"),
  chk("C11", "exploration",
-     "The specification side (Pipeline.tla, LR1.tla, Regex.tla) admits one outcome per (file, flags): TLC reports maximum out-degree 1 for the pipeline; the real gocc is run k times per (grammar, flags) in fresh processes with different GOMAXPROCS and must produce byte-identical .go files, exit status and conflict count. Differential over runs - exploration, not a proof about Go's map order or scheduler.",
+     "The specification side (Pipeline.tla, LR1.tla, Regex.tla) admits one outcome per (file, flags): TLC reports maximum out-degree 1 for the pipeline; the real gocc is run k times per (grammar, flags) in fresh processes with different GOMAXPROCS and must produce byte-identical .go files, exit status and conflict count. Differential over runs - exploration, not a proof about Go's map order or scheduler. The population includes lexical grammars with several ignored tokens and a family with several hundred LR(1) states and conflicting rows.",
      "Trusted: the Go runtime randomises map iteration per process; k runs sample it.", "TLA+ determinism of the pipeline model (TLC) + repeated real runs compared byte for byte", "5/C11"),
  chk("C12", "model_checking",
-     "Pipeline.tla's outcome table shows presentation flags never change status/announcement/packages (only -no_lexer drops the lexer); for generated grammars each flag variant's decoded tables must equal the plain build's, and the variant's real runs are validated by TLC against the driver and scan-loop models instantiated with the PLAIN build's tables - debug builds at step granularity through their own -debug_lexer/-debug_parser output.",
+     "Pipeline.tla's outcome table shows presentation flags never change status/announcement/packages (only -no_lexer drops the lexer); for generated grammars each flag variant's decoded tables must equal the plain build's, and the variant's real runs are validated by TLC against the driver and scan-loop models instantiated with the PLAIN build's tables - debug builds at step granularity through their own -debug_lexer/-debug_parser output. Error-recovery grammars and grammars with tokens only the lexical part knows are part of the population; a larger family of conflict-rich grammars is generated plain and with -zip and the decoded tables are compared entry by entry.",
      TRUST, "TLA+ specs (Pipeline/LRParse/LexScan + trace specs): table equality + cross-variant trace validation with TLC", "5/C12"),
  chk("C13", "model_checking",
-     "GoccLex.tla defines all ASCII spellings of a code point and the layouts between tokens; TLC checks each spelling denotes the code point under Go's rule (LitConv.tla) and emits the spelling table; seeded respelling plans are applied to generated grammar files and the real gocc must produce byte-identical packages and exit status.",
+     "GoccLex.tla defines all ASCII spellings of a code point and the layouts between tokens; TLC checks each spelling denotes the code point under Go's rule (LitConv.tla) and emits the spelling table; seeded respelling plans are applied to generated grammar files and the real gocc must produce byte-identical packages and exit status (either quoting style for string literals whose backslashes are plain escapes; a line comment ended by the end of the file among the layouts).",
      TRUST + " Grammar texts are tokenised by the harness (texts it rendered itself).", "TLA+ spelling model (GoccLex/LitConv) checked by TLC as plan generator + metamorphic runs of the real gocc", "5/C13"),
  chk("C17", "exploration",
      "Conc.tla states the design claim (per-goroutine private state, constant tables; invariant Independent) and enumerates interleavings at gate granularity - exhaustively for small gate counts, by TLC simulation beyond; every schedule is replayed on real generated parsers (plain and -zip) built with the race detector, gates (every Scan and action call) blocking until the schedule allows them; each goroutine's trace must equal its sequential trace, which TLC validates against the driver model; free-running stress with own lexer+parser per goroutine must reproduce sequential results with an empty race report.",
